@@ -14,7 +14,8 @@ DRIVER = "drvcorr"
 RULE = ("correspondence: candidate grid of the upsampling (region size, dftshift -> offsets) for factors 2..50 vs the "
         "offsets the real refine_center_upsampling can return for a single-frequency spectrum; oracle: (a) linearly "
         "rendered disks at random sub-pixel positions, radii, contrasts 1..1000, all built-in patterns, both pipelines, "
-        "start offsets within the capture range: centre within 1 px, COM refined within 0.5 px; (b) band-limited "
+        "start offsets within the capture range, single frames and stacks of three frames through the batch helpers (disk at "
+        "another position in every frame): centre within 1 px, COM refined within 0.5 px; (b) band-limited "
         "Fourier-shifted disks, shifts in [-10,10]^2, frame shapes 40..90 of both parities, several upsample factors per "
         "shape *in sequence* through evaluate_upsampling: within 1/upsample + 0.03 px. Non-trivial: fractional shift / "
         "position in both axes (distinct = case hashes).")
@@ -70,6 +71,26 @@ def run_case(kind, q):
             elif np.abs(ref - pos).max() > 0.5 + 1e-6:
                 msgs.append(f"{pipeline} {q['pattern']['kind']} r={radius} contrast {q['contrast']:.1f}: true centre "
                             f"{pos.tolist()}, start {start.tolist()}: refined {ref.tolist()} off by {np.abs(ref - pos).max():.3f} px")
+        # the batch helpers on a stack of frames (the documented way of processing many frames: buffers are allocated once and
+        # reused): the disk sits at another sub-pixel position in every frame, all within the capture range of the same start
+        if q.get("stack"):
+            from libertem_blobfinder.common import correlation as cc
+            poss = [pos + np.array(o) for o in q["stack"]]
+            frames = np.stack([(q["bg"] + q["contrast"] * masks.circular(centerX=p_[1], centerY=p_[0], imageSizeX=shape[1],
+                                                                         imageSizeY=shape[0], radius=radius, antialiased=True)
+                                ).astype(np.float32) for p_ in poss])
+            for nm, fn in (("process_frames_fast", cc.process_frames_fast), ("process_frames_full", cc.process_frames_full)):
+                try:
+                    outs = fn(pattern, frames, start[np.newaxis])
+                except Exception as e:
+                    msgs.append(f"{nm} raised {type(e).__name__}: {e}")
+                    continue
+                for i, p_ in enumerate(poss):
+                    cen, ref = np.asarray(outs[0][i][0], dtype=float), np.asarray(outs[1][i][0], dtype=float)
+                    if np.abs(cen - p_).max() > 1.0 + 1e-6 or np.abs(ref - p_).max() > 0.5 + 1e-6:
+                        msgs.append(f"{nm} {q['pattern']['kind']} r={radius}: frame {i} of a stack of {len(poss)}, true centre "
+                                    f"{p_.tolist()}, start {start.tolist()}: centre {cen.tolist()} refined {ref.tolist()}")
+                        break
     else:
         shape = tuple(q["shape"])
         radius = q["radius"]
@@ -123,6 +144,12 @@ def search(ctx, boost=1, focus=()):
         start = [int(np.clip(start[0], c, shape[0] - c)), int(np.clip(start[1], c, shape[1] - c))]
         q = {"seed": int(rng.integers(1 << 30)), "pattern": pat, "shape": shape, "pos": pos, "start": start,
              "bg": float(rng.uniform(0, 50)), "contrast": float(10 ** rng.uniform(0, 3))}
+        if (k // 4) % 2 == 1:
+            room = max(0.0, cap - max(abs(int(np.round(pos[0])) - start[0]), abs(int(np.round(pos[1])) - start[1])) - 0.5)
+            room = min(room, pos[0] - c - 2, pos[1] - c - 2, shape[0] - c - 2 - pos[0], shape[1] - c - 2 - pos[1])
+            q["stack"] = [[0.0, 0.0]] + [[float(rng.uniform(-room, room)), float(rng.uniform(-room, room))] for _ in range(2)] \
+                if room > 0 else [[0.0, 0.0]] * 2
+            ctx.count("stacks")
         ctx.oracle_case("linear", q, run_case("linear", q))
         ctx.count("linear_" + pat["kind"])
     for k in range(n // 3):
